@@ -104,6 +104,11 @@ func (v *VLANAllocator) AllocateWithSTag(nteID string, sTag uint16) (*VLANAlloca
 	v.mu.Lock()
 	defer v.mu.Unlock()
 
+	if sTag < v.config.STagRange.Start || sTag > v.config.STagRange.End {
+		return nil, fmt.Errorf("S-TAG %d outside configured range [%d-%d]",
+			sTag, v.config.STagRange.Start, v.config.STagRange.End)
+	}
+
 	// Check if already allocated
 	if alloc, ok := v.allocations[nteID]; ok {
 		if alloc.STag == sTag {
@@ -240,10 +245,31 @@ func (v *VLANAllocator) LoadFromStore(ctx context.Context, ntes []*NTE) error {
 	v.mu.Lock()
 	defer v.mu.Unlock()
 
+	var firstErr error
 	for _, nte := range ntes {
 		if nte.STag == 0 || nte.CTag == 0 {
 			continue
 		}
+
+		// Only restore pairs that the current configuration could have allocated
+		if nte.STag < v.config.STagRange.Start || nte.STag > v.config.STagRange.End ||
+			nte.CTag < v.config.CTagRange.Start || nte.CTag > v.config.CTagRange.End {
+			if firstErr == nil {
+				firstErr = fmt.Errorf("NTE %s: stored VLAN pair %d.%d outside configured ranges", nte.ID, nte.STag, nte.CTag)
+			}
+			continue
+		}
+
+		// A pair identifies one NTE: the first record wins
+		if owner, used := v.sTagUsage[nte.STag][nte.CTag]; used && owner != nte.ID {
+			if firstErr == nil {
+				firstErr = fmt.Errorf("NTE %s: stored VLAN pair %d.%d already allocated to NTE %s", nte.ID, nte.STag, nte.CTag, owner)
+			}
+			continue
+		}
+
+		// Drop a previous allocation of this NTE so its old pair does not stay marked as used
+		v.releaseUnlocked(nte.ID)
 
 		alloc := &VLANAllocation{
 			STag:  nte.STag,
@@ -258,7 +284,7 @@ func (v *VLANAllocator) LoadFromStore(ctx context.Context, ntes []*NTE) error {
 		v.sTagUsage[nte.STag][nte.CTag] = nte.ID
 	}
 
-	return nil
+	return firstErr
 }
 
 // SyncToNTE updates an NTE with its VLAN allocation.
